@@ -114,7 +114,7 @@ class Emitter:
 
 
 # ---------------------------------------------------------------- rewrite rules
-R1_PAT = re.compile(r'&(?=(?:Token|Variable|Ast)::[A-Za-z]+(?:\s*\([^()]*\))?\s*(?:=>|\||if\b))')
+R1_PAT = re.compile(r'(?<![=!]=\s)&(?=(?:Token|Variable|Ast)::[A-Za-z]+(?:\s*\([^()]*\))?\s*(?:=>|\||if\b))')
 
 
 def rule_R1(text, mask):
@@ -358,6 +358,8 @@ def process_extract(gen, sec, vu_path):
             edits.append((a, b, '-> (%s: %s)%s' % (d['arg'], ty, '\n' if w else ' '), 'gen', 'result-name'))
         elif n == 'contract':
             add_ins(open_rel, d, '\n', '\n')
+        elif n == 'start':
+            add_ins(open_rel + 1, d, '\n', '\n')
         elif n == 'loop':
             parts = d['arg'].split()
             idx = int(parts[0])
